@@ -226,7 +226,8 @@ static rc::Gen<Sol> gen_sol(bool nonfinite) {
       if (!names[k].insert(u.name).second) continue;
       u.n = k == 0 ? s.nvars : k == 1 ? s.ncons : 1;
       if (u.n == 0) continue;
-      if (*rc::gen::inRange(0, 3) == 0) u.table = *rc::gen::elementOf(std::vector<std::string>{"0\tnone\tno status", "0\tnone\tno status\n1\tbas\tbasic\n2\tsup\tsuperbasic", "1 a b"});
+      if (*rc::gen::inRange(0, 3) == 0) u.table = *rc::gen::elementOf(std::vector<std::string>{"0\tnone\tno status", "0\tnone\tno status\n1\tbas\tbasic\n2\tsup\tsuperbasic", "1 a b",
+                                                                                                        "0\tnone\tno status\n", "1 a b\n2 c d\n"});   // a table may also end its last line
       int nvals = *rc::gen::inRange(0, u.n + 1);
       for (int j = 0; j < nvals; ++j) { int idx = *rc::gen::inRange(0, u.n); u.vals[idx] = u.real ? *gen_double(nonfinite) : (double)*rc::gen::inRange(-3, 8); }
       s.sufs.push_back(u);
